@@ -36,23 +36,19 @@ where
     let (left_type, right_type) = (left.characteristics(), right.characteristics());
 
     match (left_type, right_type) {
-        (Loop, Loop) => {
-            // If both sides are loops then we've split the original curve at the intersection point
-            unimplemented!("Need support for a loop where we hit the intersection point")
-        }
-
-        (Loop, _) => {
+        (Loop, right_type) if right_type != Loop => {
             // Loop is in the left side
             find_intersection_point_in_loop(left, accuracy)
         },
 
-        (_, Loop) => {
+        (left_type, Loop) if left_type != Loop => {
             // Loop is in the right side
             find_intersection_point_in_loop(right, accuracy)
         }
 
         (_, _) => {
-            // Can find the intersection by using the clipping algorithm
+            // Can find the intersection by using the clipping algorithm (if both sides are loops then we've split the original curve
+            // at, or within rounding error of, the intersection point: it is found where the two halves meet)
             let intersections = curve_intersects_curve_clip(&left, &right, accuracy);
 
             if intersections.is_empty() && left.start_point().is_near_to(&right.end_point(), accuracy) {
